@@ -47,6 +47,37 @@ type cnNet struct {
 	inflight int64 // messages between Send and the end of SendLocal
 	total    int64 // messages ever sent
 	lost     int64 // undeliverable (unknown address, not protobuf, codec error)
+	// lazy: like the real remote, Send only queues the message VALUE it was given (a pointer) on the link to the
+	// destination; a goroutine per link encodes and delivers it later, in order.  A sender that goes on
+	// modifying what it has sent (re-used slices) then shows, as it does over TCP.
+	lazy  bool
+	links map[string]chan cnItem
+}
+
+type cnItem struct {
+	pid, sender *actor.PID
+	msg         any
+}
+
+func (n *cnNet) link(src, dst string) chan cnItem {
+	n.mu.Lock()
+	defer n.mu.Unlock()
+	if n.links == nil {
+		n.links = map[string]chan cnItem{}
+	}
+	k := src + ">" + dst
+	ch := n.links[k]
+	if ch == nil {
+		ch = make(chan cnItem, 1<<16)
+		n.links[k] = ch
+		go func() {
+			for it := range ch {
+				n.deliver(it.pid, it.msg, it.sender)
+				atomic.AddInt64(&n.inflight, -1)
+			}
+		}()
+	}
+	return ch
 }
 
 type cnRemote struct {
@@ -78,7 +109,15 @@ func (r *cnRemote) Send(pid *actor.PID, msg any, sender *actor.PID) {
 	n := r.net
 	atomic.AddInt64(&n.inflight, 1)
 	atomic.AddInt64(&n.total, 1)
+	if n.lazy {
+		n.link(r.addr, pid.Address) <- cnItem{pid, sender, msg}
+		return
+	}
 	defer atomic.AddInt64(&n.inflight, -1)
+	n.deliver(pid, msg, sender)
+}
+
+func (n *cnNet) deliver(pid *actor.PID, msg any, sender *actor.PID) {
 	n.mu.RLock()
 	dst := n.engines[pid.Address]
 	n.mu.RUnlock()
@@ -287,6 +326,7 @@ const kindUniverse19 = 4
 type cnCase struct {
 	Kinds [][]int             `json:"kinds"`
 	Ops   [][]json.RawMessage `json:"ops"`
+	Lazy  bool                `json:"lazy,omitempty"`
 }
 
 func cnSortLife(l []cnLife) []cnLife {
@@ -313,7 +353,7 @@ func runCluster19(raw json.RawMessage) (res any, err error) {
 			res, err = out, nil
 		}
 	}()
-	w := &cnWorld{net: &cnNet{engines: map[string]*actor.Engine{}}, kinds: c.Kinds, nodes: map[int]*cnNode{}}
+	w := &cnWorld{net: &cnNet{engines: map[string]*actor.Engine{}, lazy: c.Lazy}, kinds: c.Kinds, nodes: map[int]*cnNode{}}
 
 	// decode the ops and collect the keys of the case (first-use order)
 	type dop struct {
